@@ -3,8 +3,10 @@
 package c17
 
 import (
+	"bytes"
 	"context"
 	"fmt"
+	"runtime"
 	"strconv"
 	"strings"
 	"sync"
@@ -354,6 +356,11 @@ func gatedDelete(t *testing.T, rng *emit.Rand, batch int) (string, map[string]an
 		armed, parked := false, false
 		gate := make(chan struct{})
 		hook := func() {
+			// only the deleter is gated: DeleteRange's own Sync makes the flush goroutine run too
+			buf := make([]byte, 8192)
+			if n := runtime.Stack(buf, false); bytes.Contains(buf[:n], []byte("flushLoop")) {
+				return
+			}
 			mu.Lock()
 			if !armed {
 				mu.Unlock()
